@@ -622,8 +622,10 @@ def bounded_subset_strings(tier, seed):
                     outs[name] = f'crash {type(e).__name__}'
                 if outs[name] != want:
                     kind = ('a reversed range is accepted' if want == 'error' else
+                            # one root cause with two symptoms (the group is rejected, or - from five tokens on, thorough tier - the escape after the range is
+                            # misread and its character dropped): one family, keyed as in known_findings.json
                             'a valid group is rejected (a range ending in an escaped backslash, followed by another escape)'
-                            if outs[name] == 'error' and '-' + chr(92) * 3 in text else 'a valid group is rejected' if outs[name] == 'error' else
+                            if '-' + chr(92) * 3 in text else 'a valid group is rejected' if outs[name] == 'error' else
                             'a code point is dropped' if isinstance(outs[name], set) and outs[name] < want else 'wrong code points')
                     fams.setdefault(f'{name}: {kind}', []).append({'text': text, 'got': repr(sorted(map(chr, outs[name])) if isinstance(outs[name], set) else outs[name])[:80],
                                                                   'expected': repr(sorted(map(chr, want)) if isinstance(want, set) else want)[:80]})
